@@ -102,6 +102,15 @@ theorem extension_of_call (t : List Atom) (a : ContactArgs) (h : a.allchains = t
     | true => simp only [if_true]; exact asc_nodup strictTotal_ltStr (asc_getChains t)
     | false => simp [h]
 
+/-- Together with C05: for two different chains of the structure, `extend_to_residue=True` returns the closures of the Spec's
+    contact atoms. -/
+theorem extension_two_chain (t : List Atom) (a : ContactArgs) (hall : a.allchains = false) (hne : a.chain1 ≠ a.chain2)
+    (h1 : a.chain1 ∈ getChains t) (h2 : a.chain2 ∈ getChains t) (hext : a.extend = true) :
+    contactSets t a = .ok
+      [(a.chain1, extension Model.backbone t (Spec.Contact.contactAtoms (params a) t a.chain1 a.chain2) a.bb),
+       (a.chain2, extension Model.backbone t (Spec.Contact.contactAtoms (params a) t a.chain2 a.chain1) a.bb)] :=
+  contactSets_two_chain_extended t a hall hne h1 h2 hext
+
 /-- The pair map is returned unextended. -/
 theorem extension_leaves_pairs (t : List Atom) (a : ContactArgs) (h : a.allchains = true ∨ a.chain1 ≠ a.chain2)
     (hok : ∃ d, contactSets t { a with extend := true } = .ok d) :
